@@ -63,6 +63,16 @@ impl Net {
         }
         v
     }
+    /// the other live ports of p's segments, with the index of the segment they share
+    fn peers_seg(&self, p: (usize, usize)) -> Vec<((usize, usize), usize)> {
+        let mut v = vec![];
+        for (i, s) in self.topo.iter().enumerate() {
+            if !self.cut[i] && s.contains(&p) {
+                for q in s { if *q != p && !self.silent[q.0 - 1] { v.push((*q, i)); } }
+            }
+        }
+        v
+    }
     /// announce timer of port p: returns (result, emitted frame hex if any)
     fn announce(&mut self, p: (usize, usize)) -> (Value, Option<String>) {
         let r = self.worlds[p.0 - 1].step(&json!({"e": "t", "k": "ann", "p": p.1}));
@@ -166,15 +176,23 @@ fn free(cfg: &Value, seed: u64, trace: &str, horizon_s: u64) {
     // per port timers: ann, sync(ignored), rcpt; per node bmca phase
     let mut timers: BTreeMap<(usize, usize, u8), u64> = BTreeMap::new();
     let mut bmca_at: Vec<u64> = (0..nn).map(|_| nx() % SEC).collect();
-    // messages in flight: (arrival, dst, hex)
-    let mut msgs: Vec<(u64, (usize, usize), String)> = vec![];
+    // messages in flight: (arrival, dst, hex, event channel?)
+    let mut msgs: Vec<(u64, (usize, usize), String, bool)> = vec![];
+    // Sync / Delay traffic (cfg "sync": true): every node's clock is off by a fixed theta (ns), every segment has a fixed symmetric
+    // delay (ns); the recording filter then has to see offset = theta(slave) - theta(parent) and delay = the segment's, exactly
+    let sync_on = cfg["sync"].as_bool().unwrap_or(false);
+    let theta: Vec<i64> = (0..nn).map(|i| if sync_on { (splitmix(seed.wrapping_mul(77).wrapping_add(i as u64)) % 2_000_001) as i64 - 1_000_000 } else { 0 }).collect();
+    let dseg: Vec<u64> = (0..net.topo.len()).map(|i| 1_000 + splitmix(seed.wrapping_mul(131).wrapping_add(i as u64)) % 200_000).collect();
+    const BASE_NS: i128 = 1_700_000_000_000_000_000;
+    let theta_c = theta.clone();
+    let local = move |n: usize, t: u64| -> String { format!("={}", ((BASE_NS + t as i128 + theta_c[n] as i128) as u128) << 32) };
     let max_delay = cfg["max_delay_ms"].as_u64().unwrap_or(50) * 1_000_000;
     let absorb = |net: &Net, p: (usize, usize), acts: &Value, now: u64, timers: &mut BTreeMap<(usize, usize, u8), u64>| {
         let _ = net;
         if let Some(a) = acts.as_array() {
             for x in a {
                 if x["a"] == "T" {
-                    let k = match x["k"].as_str().unwrap() { "ann" => 0u8, "rcpt" => 2, _ => 9 };
+                    let k = match x["k"].as_str().unwrap() { "ann" => 0u8, "rcpt" => 2, "sync" if sync_on => 1, "dreq" if sync_on => 3, _ => 9 };
                     if k != 9 { timers.insert((p.0, p.1, k), now + x["ns"].as_u64().unwrap()); }
                 }
             }
@@ -186,7 +204,28 @@ fn free(cfg: &Value, seed: u64, trace: &str, horizon_s: u64) {
     let mut f = std::io::BufWriter::new(std::fs::File::create(trace).unwrap());
     let nodes = cfg["nodes"].as_array().unwrap();
     writeln!(f, "{}", json!({"e": "cfg", "n": nn, "prio": nodes.iter().map(|n| n["p1"].clone()).collect::<Vec<_>>(),
-                             "prio2": nodes.iter().map(|n| n.get("p2").cloned().unwrap_or(json!(128))).collect::<Vec<_>>(), "topo": cfg["topo"], "k": cfg["quiet_rounds"].as_u64().unwrap_or(12)})).unwrap();
+                             "prio2": nodes.iter().map(|n| n.get("p2").cloned().unwrap_or(json!(128))).collect::<Vec<_>>(), "topo": cfg["topo"], "k": cfg["quiet_rounds"].as_u64().unwrap_or(12),
+                             "theta": theta, "dseg": dseg})).unwrap();
+    let mut meas_n = 0u64;
+    // measurements the recording filter of node n received in the step just taken
+    macro_rules! log_meas {
+        ($n:expr) => {{
+            if sync_on {
+                let pr = net.worlds[$n].project(&json!({}));
+                for m in pr["flt"].as_array().unwrap() {
+                    if m["k"] != "meas" { continue; }
+                    let p = m["p"].as_u64().unwrap() as usize;
+                    let bits = |v: &Value| -> Option<i128> { v.as_str().map(|s| s.parse::<i128>().unwrap()) };
+                    let off = bits(&m["off"]); let dly = bits(&m["dly"]);
+                    let seg = net.topo.iter().position(|s| s.contains(&($n + 1, p))).unwrap_or(0);
+                    meas_n += 1;
+                    writeln!(f, "{}", json!({"e": "meas", "n": $n + 1, "p": p, "pst": pr["pst"][p - 1], "parent": pr["ppi"],
+                        "has_off": off.is_some(), "off": off.map(|b| (b >> 32) as i64).unwrap_or(0), "off_exact": off.map(|b| b & 0xffff_ffff == 0).unwrap_or(true),
+                        "has_dly": dly.is_some(), "dly": dly.map(|b| (b >> 32) as i64).unwrap_or(0), "dly_exact": dly.map(|b| b & 0xffff_ffff == 0).unwrap_or(true), "seg": seg + 1})).unwrap();
+                }
+            }
+        }};
+    }
     let mut now = 0u64;
     let mut last_disturb = 0u64;
     let fault_at = cfg["fault_at_s"].as_u64().map(|s| s * SEC);
@@ -198,7 +237,7 @@ fn free(cfg: &Value, seed: u64, trace: &str, horizon_s: u64) {
         // next event
         let mut best: (u64, u8, usize, usize, usize) = (u64::MAX, 0, 0, 0, 0); // time, kind(0 timer,1 msg,2 bmca,3 fault), a, b, c
         for ((n, p, k), t) in timers.iter() { if !net.silent[*n - 1] && *t < best.0 { best = (*t, 0, *n, *p, *k as usize); } }
-        for (i, m) in msgs.iter().enumerate() { if m.0 < best.0 { best = (m.0, 1, i, 0, 0); } }
+        for (i, m) in msgs.iter().enumerate() { if m.0 < best.0 || (m.0 == best.0 && best.1 == 1 && i < best.2) { best = (m.0, 1, i, 0, 0); } }
         for n in 0..nn { if !net.silent[n] && bmca_at[n] < best.0 { best = (bmca_at[n], 2, n, 0, 0); } }
         if let Some(fa) = fault_at { if !fault_done && fa < best.0 { best = (fa, 3, 0, 0, 0); } }
         if best.0 == u64::MAX || best.0 > end { break; }
@@ -210,17 +249,43 @@ fn free(cfg: &Value, seed: u64, trace: &str, horizon_s: u64) {
                 if best.4 == 0 {
                     let (res, hex) = net.announce(p);
                     absorb(&net, p, &res["out"], now, &mut timers);
-                    if let Some(h) = hex { for q in net.peers(p) { msgs.push((now + 100_000 + nx() % max_delay, q, h.clone())); } }
+                    if let Some(h) = hex { for q in net.peers(p) { msgs.push((now + 100_000 + nx() % max_delay, q, h.clone(), false)); } }
+                } else if best.4 == 1 || best.4 == 3 {
+                    // sync timer of a master port / delay request timer of a slave port: the event frame leaves now, its transmit
+                    // timestamp (the sender's local time) is reported at once; a Follow_Up travels just behind its Sync
+                    let kind = if best.4 == 1 { "sync" } else { "dreq" };
+                    let res = net.worlds[p.0 - 1].step(&json!({"e": "t", "k": kind, "p": p.1}));
+                    absorb(&net, p, &res["out"], now, &mut timers);
+                    log_meas!(p.0 - 1);
+                    for a in res["out"].as_array().cloned().unwrap_or_default() {
+                        if a["a"] == "E" {
+                            let hex = a["hex"].as_str().unwrap().to_string();
+                            for (q, si) in net.peers_seg(p) { msgs.push((now + dseg[si], q, hex.clone(), true)); }
+                            let r2 = net.worlds[p.0 - 1].step(&json!({"e": "ts", "p": p.1, "c": a["ctx"], "t": local(p.0 - 1, now)}));
+                            absorb(&net, p, &r2["out"], now, &mut timers);
+                            log_meas!(p.0 - 1);
+                            for g in r2["out"].as_array().cloned().unwrap_or_default() {
+                                if g["a"] == "G" { let h2 = g["hex"].as_str().unwrap().to_string(); for (q, si) in net.peers_seg(p) { msgs.push((now + dseg[si] + 1_000, q, h2.clone(), false)); } }
+                            }
+                        }
+                    }
                 } else {
                     let res = net.worlds[p.0 - 1].step(&json!({"e": "t", "k": "rcpt", "p": p.1}));
                     absorb(&net, p, &res["out"], now, &mut timers);
                 }
             }
             1 => {
-                let (_, dst, hex) = msgs.swap_remove(best.2);
+                let (_, dst, hex, ev) = msgs.swap_remove(best.2);
                 if !net.silent[dst.0 - 1] {
-                    let res = net.deliver(dst, &hex);
+                    let res = if ev { net.worlds[dst.0 - 1].step(&json!({"e": "raw", "p": dst.1, "chan": "e", "hex": hex, "rx": local(dst.0 - 1, now)})) } else { net.deliver(dst, &hex) };
                     absorb(&net, dst, &res["out"], now, &mut timers);
+                    log_meas!(dst.0 - 1);
+                    if sync_on {
+                        // a master answers a Delay_Req: the Delay_Resp goes back over the same segment
+                        for g in res["out"].as_array().cloned().unwrap_or_default() {
+                            if g["a"] == "G" && g["t"] == "DelayResp" { let h2 = g["hex"].as_str().unwrap().to_string(); for (q, si) in net.peers_seg(dst) { msgs.push((now + dseg[si], q, h2.clone(), false)); } }
+                        }
+                    }
                 }
             }
             2 => {
@@ -254,7 +319,7 @@ fn free(cfg: &Value, seed: u64, trace: &str, horizon_s: u64) {
         }
     }
     f.flush().unwrap();
-    println!("{}", json!({"rounds": rounds, "segment_rounds_with_two_masters": masters_two}));
+    println!("{}", json!({"rounds": rounds, "segment_rounds_with_two_masters": masters_two, "measurements": meas_n}));
 }
 
 fn main() {
